@@ -98,6 +98,19 @@ class PathCtx:
         return d
 
 
+def _is_generator(node):
+    """does the function body contain a yield of its own (not one of a nested function)?"""
+    stack = list(node.body)
+    while stack:
+        n = stack.pop()
+        if isinstance(n, (ast.Yield, ast.YieldFrom)):
+            return True
+        if isinstance(n, (ast.FunctionDef, ast.AsyncFunctionDef, ast.Lambda, ast.ClassDef)):
+            continue
+        stack.extend(ast.iter_child_nodes(n))
+    return False
+
+
 class InfeasiblePath(Exception):
     pass
 
@@ -256,6 +269,25 @@ class Interp:
                 self.depth -= 1
         self.bind_args(node.args, args, kwargs, env, clo, node.name)
         env.func = clo
+        if _is_generator(node):
+            # a generator function is run EAGERLY: its yields are collected, in order, into the sequence the caller then
+            # iterates over.  Equivalent to lazy evaluation when the consumer does not interfere with the state the
+            # generator reads between two yields (the caller's loop body is checked by the container's loop rule).
+            self.ctx.notes["dropped"].add(f"lazy evaluation of generator {clo.qualname or node.name} (run eagerly)")
+            env.yield_sink = []
+            self.depth += 1
+            try:
+                self.exec_block(node.body, env)
+            except _Return:
+                pass
+            finally:
+                self.depth -= 1
+            sink = env.yield_sink
+            if len(sink) == 1 and hasattr(sink[0], "pyvc_foreach"):
+                return sink[0]  # the yields of one loop over a symbolic container: a symbolic sequence
+            if any(hasattr(x, "pyvc_foreach") for x in sink):
+                raise Undecided("generator mixing symbolic and concrete yields")
+            return list(sink)
         self.depth += 1
         try:
             self.exec_block(node.body, env)
@@ -263,6 +295,15 @@ class Interp:
             return r.value
         finally:
             self.depth -= 1
+        return None
+
+    def ex_Yield(self, e, env):
+        p = env
+        while p is not None and not hasattr(p, "yield_sink"):
+            p = getattr(p, "parent", None)
+        if p is None:
+            raise Undecided("yield outside a generator function")
+        p.yield_sink.append(self.ev(e.value, env) if e.value is not None else None)
         return None
 
     def bind_args(self, a, args, kwargs, env, clo, fname):
@@ -450,6 +491,13 @@ class Interp:
             self.exec_block(s.orelse, env)
 
     def st_While(self, s, env):
+        # `while not q.empty(): ... q.get() ...`: draining a container that has its own loop rule
+        t = s.test
+        if isinstance(t, ast.UnaryOp) and isinstance(t.op, ast.Not) and isinstance(t.operand, ast.Call) and isinstance(t.operand.func, ast.Attribute) and t.operand.func.attr == "empty" and not t.operand.args:
+            obj = self.ev(t.operand.func.value, env)
+            if hasattr(obj, "pyvc_drain"):
+                obj.pyvc_drain(self, s, env)
+                return
         n = 0
         while True:
             c = self.ev(s.test, env)
